@@ -1117,6 +1117,11 @@ func (s *SCCP) evalCall1(st *fnState, x *ssa.Call, get func(ssa.Value) AVal, dep
 			if b, ok := s.bindingFor(s.sc.Lens, st.fn, cc.Args[0]); ok {
 				return b
 			}
+			if ms, isMS := cc.Args[0].(*ssa.MakeSlice); isMS {
+				if l := get(ms.Len); l.isConst() {
+					return l // len(make([]T, n)) == n
+				}
+			}
 			if _, isMM := cc.Args[0].(*ssa.MakeMap); isMM {
 				if b, ok := s.lookupBinding(s.sc.Lens, st.fn, "<local map>"); ok {
 					return b
